@@ -61,10 +61,14 @@ type ProgObs struct {
 }
 
 type Case struct {
-	Kind     string    `json:"kind"`
-	Procs    int       `json:"gomaxprocs"`
-	Progs    [][]Rule  `json:"progs"`
-	Tails    []int     `json:"tails"` // per program, how its text ends: 0 plainly, 1 trailing top-level stop, 2 "} else { stop }" on the line pattern, 3 a final statement that always raises a runtime error
+	Kind  string   `json:"kind"`
+	Procs int      `json:"gomaxprocs"`
+	Progs [][]Rule `json:"progs"`
+	// Pads: per program, how many inert rules (`/^padNNNN$/ { stop }`, never
+	// matched by any generated line) precede its real rules: a program that
+	// executes thousands of instructions on every line without any other effect
+	Pads     []int     `json:"pads,omitempty"`
+	Tails    []int     `json:"tails"`          // per program, how its text ends: 0 plainly, 1 trailing top-level stop, 2 "} else { stop }" on the line pattern, 3 a final statement that always raises a runtime error
 	Sock     bool      `json:"sock,omitempty"` // the log glob also matches a unix socket file sorting before the logs
 	Files    []File    `json:"files"`
 	Glob     bool      `json:"glob"` // one glob pattern instead of one pattern per file
@@ -80,7 +84,9 @@ var tags = []string{"a", "b", "c"}
 // (stop, or a runtime error), reached by every line (1, 3) or by every
 // non-matching line (2) - per-line VM state that survives into the next line
 // shows as a line missing from the per-line log.
-func source(rules []Rule, tail int) string {
+func source(rules []Rule, tail int) string { return sourcePadded(rules, tail, 0) }
+
+func sourcePadded(rules []Rule, tail, pads int) string {
 	var b strings.Builder
 	b.WriteString("counter seq by f, k\n")
 	decl := []string{"counter hits\n", "counter sum\n", "gauge last\n"}
@@ -91,6 +97,9 @@ func source(rules []Rule, tail int) string {
 				break
 			}
 		}
+	}
+	for i := 0; i < pads; i++ {
+		fmt.Fprintf(&b, "/^pad%04d$/ {\n  stop\n}\n", i)
 	}
 	b.WriteString("/^(?P<f>\\d+) (?P<k>\\d+) (?P<tag>[abc]) (?P<v>\\d+)$/ {\n  seq[$f][$k]++\n")
 	for _, r := range rules {
@@ -114,6 +123,13 @@ func source(rules []Rule, tail int) string {
 		b.WriteString("}\n")
 	}
 	return b.String()
+}
+
+func padOf(c *Case, i int) int {
+	if i < len(c.Pads) {
+		return c.Pads[i]
+	}
+	return 0
 }
 
 func fileText(fi int, f File) string {
@@ -141,7 +157,7 @@ func execute(root string, serial int, c *Case) {
 		c.Tails = append(c.Tails, 0)
 	}
 	for i, rules := range c.Progs {
-		must(os.WriteFile(filepath.Join(progDir, fmt.Sprintf("p%d.mtail", i)), []byte(source(rules, c.Tails[i])), 0o644))
+		must(os.WriteFile(filepath.Join(progDir, fmt.Sprintf("p%d.mtail", i)), []byte(sourcePadded(rules, c.Tails[i], padOf(c, i))), 0o644))
 	}
 	var pats []string
 	for i, f := range c.Files {
@@ -377,6 +393,11 @@ func genCase(rng *vlib.Rand, big bool) *Case {
 		}
 		c.Tails = append(c.Tails, t)
 	}
+	if rng.Chance(12) {
+		// one program is long: 600-900 inert rules before the real ones
+		c.Pads = make([]int, np)
+		c.Pads[rng.Intn(np)] = 600 + rng.Intn(300)
+	}
 	c.Sock = c.Glob && rng.Chance(35)
 	nf := 1 + rng.Intn(3)
 	for i := 0; i < nf; i++ {
@@ -467,6 +488,9 @@ func main() {
 		}
 		if i >= n {
 			out.Count("large-files")
+		}
+		if len(c.Pads) > 0 {
+			out.Count("long-program(600-900 inert rules)")
 		}
 		if len(c.Obs) > 0 {
 			sw := 0
